@@ -85,9 +85,15 @@ def simple_query(name="www.example.com.", qtype=tok.A, qclass=1, ident=0x1234, r
     return wiregen.encode(m, mode="whole", z=z)
 
 
+CORPUS = os.path.join(core.VERIF, "corpus", "C09", "regressions.txt")
+
+
 def generate(rng, tier):
     n = QUICK_PURE if tier == "quick" else THOROUGH_PURE
     cases = []
+    if os.path.exists(CORPUS):
+        with open(CORPUS) as f:
+            cases += [l.strip() for l in f if l.startswith("server ")]
     base = simple_query()
     # framing: lengths around every boundary, every value of octet 2 at a few lengths
     udp_lens = [0, 1, 2, 3, 11, 12, 13, 33, 511, 512, 513, 514, 600, 1024, 5000]
@@ -426,7 +432,9 @@ def make_config(rng, mode, idx, with_huge):
               CNAME: lambda: ("n", rng.choice(["www.example.com.", "a.rnd.example.com.", "www.other.test.", "nothere.example.com."])),
               NS: lambda: ("n", rng.choice(["ns1.example.com.", "ns.sub.example.com."])),
               AAAA: lambda: ("q", bytes(rng.randrange(256) for _ in range(16)))}[t]()
-        ex.append((rng.random() < 0.15, owner, t, rng.choice([0, 1, 299, 300, 301, 86400]), rd))
+        # no wildcard NS records (RFC 4592 4.2 leaves them undefined; the code reads them as a delegation of
+        # <next label>.<closest encloser>, which would be one more shape of the known referral finding)
+        ex.append((rng.random() < 0.15 and t != NS, owner, t, rng.choice([0, 1, 299, 300, 301, 86400]), rd))
     z_example = {"apex": "example.com.", "soa": soa_for("example.com.", 300), "ops": ex}
     z_other = {"apex": "other.test.", "soa": soa_for("other.test.", 60),
                "ops": [(False, "www.other.test.", A, 30, ("a", addr())), (False, "www.other.test.", TXT, 3000, ("o", b"other")),
@@ -555,6 +563,8 @@ def gen_messages(rng, cfg, budget, big_ok):
     for k in (0, 1, 2, 3, 5, len(base) + 1):
         out.append(Msg("To", tcp_stream(base, declared=len(base))[:k] if k <= len(base) else tcp_stream(base, declared=len(base) + 9),
                        "tcp-open-silent"))
+    out.append(Msg("To", tcp_stream(base), "tcp-open-complete"))
+    out.append(Msg("To", tcp_stream(base) + b"more", "tcp-open-complete"))
     for k in (0, 1, 3, 6, len(base) + 2):
         out.append(Msg("Tc", tcp_stream(base, declared=len(base) + 5)[:k], "tcp-early-close"))
         out.append(Msg("Tr", tcp_stream(base, declared=len(base) + 5)[:k], "tcp-reset"))
@@ -786,12 +796,20 @@ def tcp_exchange(addr, m, quiet_wait=0.25, timeout=8.0):
             s.close()
             return b"", "reset"
         if m.transport == "To":
+            # the peer stays connected and silent: whatever the server sends within the wait (a complete
+            # message is answered and the connection closed; an incomplete one must get nothing)
             s.settimeout(quiet_wait)
-            try:
-                got = s.recv(65536)
-                return got, "peer open and silent: server %s" % ("sent %d octets" % len(got) if got else "closed")
-            except socket.timeout:
-                return b"", "silent for %.0f ms" % (quiet_wait * 1000)
+            out = bytearray()
+            while True:
+                try:
+                    d = s.recv(1 << 17)
+                except socket.timeout:
+                    return bytes(out), "peer open: %d octets within %.0f ms, connection still open" % (len(out), quiet_wait * 1000)
+                except OSError as e:
+                    return bytes(out), "error: %s" % e
+                if not d:
+                    return bytes(out), "eof"
+                out += d
         try:
             s.shutdown(socket.SHUT_WR)
         except OSError:
@@ -906,7 +924,7 @@ def oracle_reply(cfg, m, replies, model_out=None):
     req, short = request_view(m)
     if m.transport in ("Tc", "Tr"):
         return None                           # the client did not listen
-    if m.transport == "To":
+    if m.transport == "To" and (short or len(m.data) < 2):
         if replies:
             return ("reply-before-message-complete", "a reply was sent while the TCP peer had not finished its message")
         return None
@@ -996,11 +1014,6 @@ def compare_with_model(m, model_out, replies):
         return None
     if model_out in ("Panic", "OutOfFuel", "Err") or model_out.startswith("MODEL-EXN") or model_out.startswith("DRIVER"):
         return "model: " + core.trunc(model_out, 80)
-    if m.transport == "To":
-        # the model says what is written when the stream is complete or stays open; nothing may arrive while it is open
-        if model_out != "none" and not replies:
-            return None if len(m.data) < 2 + (struct.unpack(">H", m.data[:2])[0] if len(m.data) >= 2 else 0) else "model expects a reply, none came"
-        return None
     if model_out in ("none", "unserialisable"):
         return None if not replies else "model: no reply (%s); implementation sent %d" % (model_out, len(replies))
     exp = unhex(model_out)
@@ -1131,7 +1144,7 @@ def run_config(cfg, msgs, run_dir, tag, rng, fails, stats, batch_size=96):
                     continue
                 pl, err = split_tcp_replies(stream)
                 m.got = pl
-                if err and m.transport in ("Te", "To"):
+                if err and m.transport in ("Te", "To") and not note.startswith("peer open"):
                     fails.append(core.Failure("tcp-prefix-wrong", err, case=case_of(m), impl=hexb(stream[:40])))
                 if note.startswith("timeout"):
                     fails.append(core.Failure("tcp-not-closed", "the server neither answered nor closed the connection within 8 s",
